@@ -259,8 +259,37 @@ def generate(cls, rng):
             threads = [gen_thread_prog(rng, names,
                                        rng.randrange(1, DP.pick(10, 20)))
                        for _ in range(nthreads)]
+        strategy = gen_strategy(rng)
+        if rng.random() < 0.2:
+            # maintenance race: one thread does nothing but cache_clear /
+            # set_cache_size / gc while the others keep requesting more
+            # distinct keys than the (small) strong caches hold, under dense
+            # random switching
+            knobs["gettz_size"] = rng.choice([0, 1, 2])
+            knobs["off_size"] = rng.choice([0, 1, 2])
+            knobs["str_size"] = rng.choice([0, 1, 2])
+            pool = gen_names(rng, small=False)
+            threads = []
+            for _ in range(max(2, nthreads) - 1):
+                prog = []
+                for _ in range(rng.randrange(3, DP.pick(9, 16))):
+                    prog.append(gen_request(rng, pool,
+                                            rng.choice(["s0", "s1", "s2"])))
+                threads.append(prog)
+            maint = []
+            for _ in range(rng.randrange(3, 10)):
+                r = rng.random()
+                if r < 0.5:
+                    maint.append(["cache_clear"])
+                elif r < 0.85:
+                    maint.append(["set_cache_size",
+                                  rng.choice([0, 1, 2, 8])])
+                else:
+                    maint.append(["gc"])
+            threads.append(maint)
+            strategy = dict(kind="random", p=rng.choice([0.15, 0.3, 0.5]))
         return dict(knobs=knobs, threads=threads,
-                    sched=dict(strategy=gen_strategy(rng),
+                    sched=dict(strategy=strategy,
                                seed=rng.getrandbits(32)))
     # hist
     names = gen_names(rng, small=False)
